@@ -13,8 +13,16 @@
 (* Messages: "H" (header line), "N" (na) or a protocol name.               *)
 (* One action = at most one read/write call on the underlying io, with     *)
 (* every possible short count (fragmentation).  `Pending` is stuttering    *)
-(* (the futures re-enter exactly where they left), flushes of the          *)
-(* underlying io carry no data and are not modelled.                       *)
+(* (the futures re-enter exactly where they left).                         *)
+(* Carrier flush semantics (cfg.buf = set of sides whose outgoing carrier  *)
+(* buffers): a write-through carrier puts written bytes on the wire at     *)
+(* once and its flush carries no data (not modelled); a buffering carrier  *)
+(* (NoiseSocket, BufWriter) appends writes to a private buffer obuf[s] and *)
+(* only its poll_flush moves them to the wire, any non-zero amount per     *)
+(* poll, Ready once the buffer is empty.  `LengthDelimited::poll_flush` is *)
+(* then "drain the frame buffer, then poll the inner flush until Ready";   *)
+(* `Negotiated` flushes through it while Expecting and directly on the     *)
+(* carrier once Completed; the application flushes after its payload.      *)
 (* Mut # "none" selects a deliberately broken variant (self-test).         *)
 (***************************************************************************)
 EXTENDS Multistream, TLC
@@ -24,11 +32,15 @@ CONSTANTS Long,        \* names whose frame has a 2-byte length prefix
           ReadFrag,    \* TRUE: frame bodies may arrive in pieces
           WriteFrag,   \* TRUE: writes may be accepted partially
           Record,      \* TRUE: keep the io history (behaviour generation)
-          Mut          \* "none" | "overread" | "lazyall" | "noflushwait"
+          Mut          \* "none" | "overread" | "lazyall" | "skipflush"
+\* "skipflush": LengthDelimited::poll_flush returns Ready without polling the inner flush when its own
+\* frame buffer is empty (so the inner flush is polled once per drain, and never for an Expecting
+\* `Negotiated` whose frames were drained by a write)
 
-VARIABLES cfg, p, chan, ev, mon, hist
-vars == <<cfg, p, chan, ev, mon, hist>>
+VARIABLES cfg, p, chan, obuf, ev, mon, hist
+vars == <<cfg, p, chan, obuf, ev, mon, hist>>
 
+Buf(s) == s \in cfg.buf
 Out(s) == IF s = "d" THEN "dl" ELSE "ld"
 In(s) == Out(Other(s))
 Min2(a, b) == IF a < b THEN a ELSE b
@@ -105,9 +117,17 @@ Handle(s, r, msg) ==
          ELSE IF msg = r.proto THEN Res([r EXCEPT !.neg = "completed", !.pc = "AppRead"], NoEvent)
          ELSE AppFail(s, r)
 
-Apply(s, res, newchan, io) ==
+\* nc: [c |-> channels, o |-> carrier buffers] after the step
+Same == [c |-> chan, o |-> obuf]
+\* side s writes units: onto the wire, or into its carrier's private buffer
+Put(s, units) == IF Buf(s) THEN [c |-> chan, o |-> [obuf EXCEPT ![s] = @ \o units]]
+                 ELSE [c |-> [chan EXCEPT ![Out(s)] = @ \o units], o |-> obuf]
+Took(s, rest) == [c |-> [chan EXCEPT ![In(s)] = rest], o |-> obuf]
+
+Apply(s, res, nc, io) ==
   /\ p' = [p EXCEPT ![s] = res.r]
-  /\ chan' = newchan
+  /\ chan' = nc.c
+  /\ obuf' = nc.o
   /\ ev' = res.e
   /\ mon' = UpdEvent(mon, res.e)
   /\ hist' = IF Record /\ io # <<>> THEN Append(hist, [s |-> s, op |-> io[1], n |-> io[2]]) ELSE hist
@@ -124,10 +144,10 @@ ReadStep(s) ==
      /\ IF c = <<>>
           THEN \* EOF once the peer dropped its io
                /\ Dead(Other(s))
-               /\ Apply(s, Handle(s, r, IF r.rst = "len" /\ r.lpos = 0 THEN "eof" ELSE "ioerr"), chan, <<"rd", 0>>)
+               /\ Apply(s, Handle(s, r, IF r.rst = "len" /\ r.lpos = 0 THEN "eof" ELSE "ioerr"), Same, <<"rd", 0>>)
           ELSE IF r.rst = "len"
             THEN LET u == c[1]
-                     rest == [chan EXCEPT ![In(s)] = Tail(c)]
+                     rest == Took(s, Tail(c))
                  IN IF u.t = "L"
                       THEN IF u.i = 1
                              THEN Apply(s, Res([r EXCEPT !.rst = "data", !.rlen = 2, !.lpos = 0], NoEvent), rest, <<"rd", 1>>)
@@ -145,7 +165,7 @@ ReadStep(s) ==
                  IN \E n \in (IF ReadFrag THEN 1..top ELSE {top}) :
                       LET got == SubSeq(c, 1, Min2(n, want))      \* an over-long read drops the excess
                           buf == r.rbuf \o got
-                          rest == [chan EXCEPT ![In(s)] = SubSeq(c, n + 1, Len(c))]
+                          rest == Took(s, SubSeq(c, n + 1, Len(c)))
                       IN IF Len(buf) = r.rlen
                            THEN Apply(s, Handle(s, [r EXCEPT !.rst = "len", !.rbuf = <<>>], Decode(buf)), rest, <<"rd", n>>)
                            ELSE Apply(s, Res([r EXCEPT !.rbuf = buf], NoEvent), rest, <<"rd", n>>)
@@ -153,25 +173,46 @@ ReadStep(s) ==
 (* LengthDelimited::poll_write_buffer, one inner.poll_write per action; the state
    that follows an empty buffer is entered in the same step *)
 WritePcs == {"Flush", "NegFlush"}
+InnerPcs == {"FlushI", "NegFlushI", "AppFlushI"}
+\* the flush (frame buffer drained, inner flush Ready) of state r.pc is complete
 AfterFlush(s, r) ==
-  IF r.pc = "NegFlush" THEN Res([r EXCEPT !.pc = "NegRead"], NoEvent)
+  IF r.pc \in {"NegFlush", "NegFlushI"} THEN Res([r EXCEPT !.pc = "NegRead"], NoEvent)
+  ELSE IF r.pc = "AppFlushI" THEN Res([r EXCEPT !.pc = AfterWrite(r)], NoEvent)
   ELSE IF s = "d" THEN Res([r EXCEPT !.pc = "Await"], NoEvent)
   ELSE IF r.sel # "" THEN DoneOk(s, r, r.sel, "completed")
   ELSE Res([r EXCEPT !.pc = "RecvMessage"], NoEvent)
+\* the frame buffer is drained: over a buffering carrier the inner flush has work to do
+AfterDrain(s, r) ==
+  IF Buf(s) THEN Res([r EXCEPT !.pc = IF r.pc = "NegFlush" THEN "NegFlushI" ELSE "FlushI"], NoEvent)
+  ELSE AfterFlush(s, r)
 
 WriteBuf(s, after(_)) ==
   LET r == p[s] IN
-  IF Dead(Other(s))
-    THEN Apply(s, IF r.res = "run" THEN Fail(s, r) ELSE AppFail(s, r), chan, <<"wr", 0>>)
+  IF Dead(Other(s)) /\ ~Buf(s)
+    THEN Apply(s, IF r.res = "run" THEN Fail(s, r) ELSE AppFail(s, r), Same, <<"wr", 0>>)
     ELSE \E n \in (IF WriteFrag THEN 1..Len(r.wbuf) ELSE {Len(r.wbuf)}) :
            LET r1 == [r EXCEPT !.wbuf = SubSeq(@, n + 1, Len(@))]
-               nc == [chan EXCEPT ![Out(s)] = @ \o SubSeq(r.wbuf, 1, n)]
-           IN Apply(s, IF r1.wbuf = <<>> THEN after(r1) ELSE Res(r1, NoEvent), nc, <<"wr", n>>)
+           IN Apply(s, IF r1.wbuf = <<>> THEN after(r1) ELSE Res(r1, NoEvent), Put(s, SubSeq(r.wbuf, 1, n)), <<"wr", n>>)
 
 FlushStep(s) ==
   /\ p[s].pc \in WritePcs
   /\ p[s].wbuf # <<>>
-  /\ WriteBuf(s, LAMBDA r1 : AfterFlush(s, r1))
+  /\ WriteBuf(s, LAMBDA r1 : AfterDrain(s, r1))
+
+(* one poll of the buffering carrier's poll_flush: n units reach the wire; Ready iff nothing is left.
+   Under "skipflush" the flush of LengthDelimited polls it once (possibly without progress) and the
+   re-poll reports Ready whatever is left. *)
+InnerFlushStep(s) ==
+  LET r == p[s]
+      once == Mut = "skipflush" /\ r.pc \in {"FlushI", "NegFlushI"}
+  IN /\ r.pc \in InnerPcs
+     /\ obuf[s] # <<>>
+     /\ IF Dead(Other(s))
+          THEN Apply(s, IF r.res = "run" THEN Fail(s, r) ELSE AppFail(s, r), Same, <<"fl", 0>>)
+          ELSE \E n \in (IF once THEN 0..Len(obuf[s]) ELSE 1..Len(obuf[s])) :
+                 LET nc == [c |-> [chan EXCEPT ![Out(s)] = @ \o SubSeq(obuf[s], 1, n)],
+                            o |-> [obuf EXCEPT ![s] = SubSeq(@, n + 1, Len(@))]]
+                 IN Apply(s, IF nc.o[s] = <<>> \/ once THEN AfterFlush(s, r) ELSE Res(r, NoEvent), nc, <<"fl", n>>)
 
 -----------------------------------------------------------------------------
 (* application phase on the Negotiated io *)
@@ -182,13 +223,16 @@ AppWrite(s) ==
      /\ IF r.neg = "expecting" /\ r.wbuf # <<>>
           THEN \* LengthDelimitedReader::poll_write first drains the negotiation frames
                WriteBuf(s, LAMBDA r1 : Res(r1, NoEvent))
-          ELSE IF Dead(Other(s))
-            THEN Apply(s, AppFail(s, r), chan, <<"wr", 0>>)
+          ELSE IF Dead(Other(s)) /\ ~Buf(s)
+            THEN Apply(s, AppFail(s, r), Same, <<"wr", 0>>)
             ELSE \E n \in (IF WriteFrag THEN 1..(Len(pay) - r.wpos) ELSE {Len(pay) - r.wpos}) :
                    LET r1 == [r EXCEPT !.wpos = @ + n]
-                       nc == [chan EXCEPT ![Out(s)] = @ \o AppUnits(SubSeq(pay, r.wpos + 1, r.wpos + n))]
-                   IN Apply(s, Res(IF r1.wpos = Len(pay) THEN [r1 EXCEPT !.pc = AfterWrite(r1)] ELSE r1, NoEvent),
-                            nc, <<"wr", n>>)
+                       \* the application flushes after its payload: through LengthDelimited::poll_flush
+                       \* while Expecting (frame buffer already drained by the write), directly otherwise
+                       skip == Mut = "skipflush" /\ r.neg = "expecting"
+                       next == IF Buf(s) /\ ~skip THEN "AppFlushI" ELSE AfterWrite(r1)
+                   IN Apply(s, Res(IF r1.wpos = Len(pay) THEN [r1 EXCEPT !.pc = next] ELSE r1, NoEvent),
+                            Put(s, AppUnits(SubSeq(pay, r.wpos + 1, r.wpos + n))), <<"wr", n>>)
 
 AppRead(s) ==
   LET r == p[s]
@@ -196,18 +240,18 @@ AppRead(s) ==
   IN /\ r.pc = "AppRead"
      /\ IF c = <<>>
           THEN /\ Dead(Other(s))
-               /\ Apply(s, Res([r EXCEPT !.pc = "AppEnd"], NoEvent), chan, <<"rd", 0>>)
+               /\ Apply(s, Res([r EXCEPT !.pc = "AppEnd"], NoEvent), Same, <<"rd", 0>>)
           ELSE \E n \in 1..Min2(AppCap, Len(c)) :
                  LET bs == [i \in 1..n |-> AsByte(c[i])]
                  IN Apply(s, Res([r EXCEPT !.recv = @ \o bs], [k |-> "read", s |-> s, bs |-> bs]),
-                          [chan EXCEPT ![In(s)] = SubSeq(c, n + 1, Len(c))], <<"rd", n>>)
+                          Took(s, SubSeq(c, n + 1, Len(c))), <<"rd", n>>)
 
 Start ==
   /\ p["d"].pc = "Start"
   /\ LET r1 == [p["d"] EXCEPT !.wbuf = Frame("H")]
-     IN Apply("d", IF cfg.dlist = <<>> THEN Fail("d", r1) ELSE SendProto(r1, 1), chan, <<>>)
+     IN Apply("d", IF cfg.dlist = <<>> THEN Fail("d", r1) ELSE SendProto(r1, 1), Same, <<>>)
 
-SideStep(s) == ReadStep(s) \/ FlushStep(s) \/ AppWrite(s) \/ AppRead(s)
+SideStep(s) == ReadStep(s) \/ FlushStep(s) \/ InnerFlushStep(s) \/ AppWrite(s) \/ AppRead(s)
 
 \* side s can do nothing until the peer acts (or never again)
 Blocked(s) ==
@@ -219,6 +263,7 @@ ImplInit(c) ==
   /\ cfg = c
   /\ p = [s \in Sides |-> InitSide(s)]
   /\ chan = [dl |-> <<>>, ld |-> <<>>]
+  /\ obuf = [d |-> <<>>, l |-> <<>>]
   /\ ev = NoEvent
   /\ mon = PropInit
   /\ hist = <<>>
@@ -233,5 +278,5 @@ QuiesceOK == Quiescent => PropQuiesce(cfg, mon)
 \* the frame reader never holds bytes beyond the current frame
 ReaderInv == \A s \in Sides : Len(p[s].rbuf) <= p[s].rlen /\ (p[s].rst = "len" => p[s].rbuf = <<>>)
 Terminates == <>[]Quiescent
-View == <<cfg, p, chan>>
+View == <<cfg, p, chan, obuf>>
 =============================================================================
